@@ -33,6 +33,7 @@ LocChoices(p, cmp) ==
     {[lk |-> "N", loc |-> <<>>, lg |-> 0], [lk |-> "C", loc |-> <<<<"1.5", "0.0", "-2.25">>>>, lg |-> 0]}
     \cup (IF t[p].grid = NoGrid THEN {} ELSE
             {[lk |-> "I", loc |-> <<c>>, lg |-> p] : c \in Cells}
+            \cup {[lk |-> "C", loc |-> <<<<"0.0", "0.0", "0.0">>>>, lg |-> p]}          \* free coordinates attached to the parent's grid
             \cup (IF cmp THEN {[lk |-> "M", loc |-> <<<<0, 0, 0>>, <<1, 0, 0>>>>, lg |-> p], [lk |-> "M", loc |-> <<<<1, 0, 0>>>>, lg |-> p]}
                   ELSE {}))
 
